@@ -500,8 +500,8 @@ pub fn step(s: &State, op: &Op) -> Outcome {
     }
     // observable agreement
     let want = observe_model(&n.m);
-    for (name, got) in [("vec", observe(&n.v, &n.lv)), ("hash", observe(&n.h, &n.lh))] {
-        match guarded(|| got) {
+    for (name, got) in [("vec", guarded(|| observe(&n.v, &n.lv))), ("hash", guarded(|| observe(&n.h, &n.lh)))] {
+        match got {
             Err(p) => return Outcome::Violation(format!("{}|{}|observe-panic|{}", opname, name, last_panic_site()), p),
             Ok(Err(e)) => return Outcome::Violation(format!("{}|{}|inconsistent", opname, name), e),
             Ok(Ok(o)) => {
@@ -772,7 +772,15 @@ pub fn explore(rep: &mut Report, max_live: usize, max_id: usize, depth_cap: usiz
                     st.violation(Violation { sig, detail, witness: json!({"kind": "history", "ops": op_json(path)}) });
                 }
                 let mut offer = |n: State, p2: Vec<Op>, st: &mut Stats| {
-                    let h = h128(&state_key(&n));
+                    // the key reads the private state through public queries: a panic there is the subject's
+                    let key = match guarded(|| state_key(&n)) {
+                        Ok(k) => k,
+                        Err(p) => {
+                            st.violation(Violation { sig: format!("query-panic-after|{}|{}", p2.last().map(|o| format!("{:?}", o).split('(').next().unwrap_or("").to_string()).unwrap_or_default(), last_panic_site()), detail: p, witness: json!({"kind": "history", "ops": op_json(&p2)}) });
+                            return;
+                        }
+                    };
+                    let h = h128(&key);
                     if nseen.load(std::sync::atomic::Ordering::Relaxed) >= state_cap {
                         cap_hit.store(true, std::sync::atomic::Ordering::Relaxed);
                         return;
